@@ -49,7 +49,7 @@ CLASSES = [["E1", "Exception", []], ["E2", "E1", []], ["E3", "Exception", ["I1"]
 IFACES = [["I1", []]]
 
 ACTIONS = ["none", "return", "break", "continue", "throwE1", "throwE2", "throwE3", "throwE4", "panic", "callthrow"]
-LAYOUTS = ["nocatch", "E1", "E2E1", "E1E2", "I1Exc"]
+LAYOUTS = ["nocatch", "E1", "E2E1", "E1E2", "I1Exc", "E4orE1"]
 CATCH_ACTIONS = ["none", "rethrow", "thrownew", "return", "break"]
 FINALLY = ["absent", "plain", "return", "throw"]
 
@@ -95,6 +95,8 @@ def path_program(action, layout, ca, fin):
         catches = [["E2", "e", catch_body("c2:", ca, True)], ["E1", "e", catch_body("c1:", "none", True)]]
     elif layout == "E1E2":
         catches = [["E1", "e", catch_body("c1:", ca, True)], ["E2", "e", catch_body("c2:", "none", True)]]
+    elif layout == "E4orE1":
+        catches = [["E4|E1", "e", catch_body("cu:", ca, True)]]
     elif layout == "I1Exc":
         catches = [["I1", "e", catch_body("ci:", ca, True)], ["Exception", None, catch_body("cx:", "none", False)]]
     fb = None
@@ -187,7 +189,12 @@ class Gen5(G.Gen):
         if r.random() < 0.7:
             body.insert(r.randint(0, len(body)), self.thrower(sc))
         catches = []
-        for ty in dict.fromkeys(self.catch_types()):
+        tys = list(dict.fromkeys(self.catch_types()))
+        if len(tys) >= 2 and r.random() < 0.3:
+            users = [t for t in tys if t not in ("Exception", "Throwable")]
+            if len(users) >= 2:
+                tys = [users[0] + "|" + users[1]] + [t for t in tys if t not in users[:2]]     # catch (A | B $e)
+        for ty in tys:
             user = ty not in ("Exception", "Throwable")
             cb = [echo("<%s>" % ty)]
             if user:
@@ -414,7 +421,7 @@ def main(ck):
     ck.samples = ([srcs[len(srcs) // 2], srcs[-1]] if srcs else []) + ([cli[0][2]] if cli else [])
     ck.finish(level="proof", evaluations=len(cases) + len(cli), distinct_nontrivial=nontriv + len(cli),
               rule="programs: every combination of try-block exit (none, return, break, continue, throw of 4 classes, Go panic, throw from a "
-                   "callee) x catch layout (none, one, specific-then-general, general-then-specific, interface-then-Exception) x catch "
+                   "callee) x catch layout (none, one, specific-then-general, general-then-specific, interface-then-Exception, union A|B) x catch "
                    "action (none, rethrow, throw new, return, break) x finally (absent, plain, return, throw), each inside a loop inside "
                    "a function inside an outer try (nesting 2); identity / rethrow / unwinding probes; seeded random typed programs with "
                    "1-5 exception classes and 0-2 interfaces, try nesting <= 3; CLI: real subprocesses over parse errors, uncaught "
